@@ -7,6 +7,13 @@
 //!   810 constructor on the model transport: inputs + environment answers | result + ordered event log
 //!   811 constructor on MmioTransport: ... | result + ordered register accesses / hook / platform events
 //!   820 feature-gated operation on a constructed driver | result, used_event, events
+//!   812 constructor on PciTransport over the emulated PCI function (scen/c11.rs building blocks, functional BAR):
+//!       ... | result + ordered accesses to the four windows (21 win w off width val) / hook / platform events
+//!   854 MONITOR: the initialisation automaton on the handshake events DECODED from the observed accesses to the
+//!       common configuration structure and the notification window (VirtIO 1.2 4.1.4.3 layout), plus the PCI access
+//!       rules: queue_enable := 1 only after the queue's three addresses, natural widths, notification = 16-bit write
+//!       of q at queue_notify_off(q) * multiplier. One line for the construction, one for the whole life of the
+//!       transport (drop included; a poll of device_status that never ends is reported there)
 //!   850/851 MONITOR: the initialisation automaton of the specification on the OBSERVED log (calls / registers)
 //!   852 MONITOR: the flags of every VirtQueue::new and of every platform call = bits 28/29/33 of the
 //!       negotiated word; the queues registered by a successful constructor
@@ -114,6 +121,16 @@ fn drop_built<T: Transport>(b: Box<Built<T>>) {
     let _ = drivers::take_records();
 }
 
+/// the records without the register accesses (VirtQueue::new reports re-positioned)
+fn without_mmio(rec: &Records) -> Records {
+    Records { log: rec.log.iter().filter(|e| !matches!(e, hal::Ev::Mmio { .. })).cloned().collect(),
+        qnew: { let mut k = 0usize; let mut v = vec![]; let mut iq = 0usize;
+            for (pos, e) in rec.log.iter().enumerate() { while iq < rec.qnew.len() && rec.qnew[iq].0 <= pos { let mut q = rec.qnew[iq]; q.0 = k; v.push(q); iq += 1; }
+                if !matches!(e, hal::Ev::Mmio { .. }) { k += 1; } }
+            while iq < rec.qnew.len() { let mut q = rec.qnew[iq]; q.0 = k; v.push(q); iq += 1; } v },
+        ap_alloc: rec.ap_alloc.clone(), ap_share: rec.ap_share.clone() }
+}
+
 /// one constructor run on the real MmioTransport over the emulated register file
 pub fn mmio_case(ctx: &mut Ctx, version: u32, c: &Case) {
     let p = drivers::norm_params(c.p);
@@ -139,17 +156,104 @@ pub fn mmio_case(ctx: &mut Ctx, version: u32, c: &Case) {
     let mut m = vec![d.code(), c.offered as u128, ok]; m.extend(drivers::enc_accesses(&rec));
     ctx.tr.line(851, &m, &[1]);
     // hook reports and platform calls (no transport-call events at this level: the queue list is not checked here)
-    let kept = Records { log: rec.log.iter().filter(|e| !matches!(e, hal::Ev::Mmio { .. })).cloned().collect(),
-        qnew: { let mut k = 0usize; let mut v = vec![]; let mut iq = 0usize;
-            for (pos, e) in rec.log.iter().enumerate() { while iq < rec.qnew.len() && rec.qnew[iq].0 <= pos { let mut q = rec.qnew[iq]; q.0 = k; v.push(q); iq += 1; }
-                if !matches!(e, hal::Ev::Mmio { .. }) { k += 1; } }
-            while iq < rec.qnew.len() { let mut q = rec.qnew[iq]; q.0 = k; v.push(q); iq += 1; } v },
-        ap_alloc: rec.ap_alloc.clone(), ap_share: rec.ap_share.clone() };
+    let kept = without_mmio(&rec);
     let mut m = vec![d.code(), c.offered as u128, p.p1(d), 0]; m.extend(drivers::enc_events(&kept));
     ctx.tr.line(852, &m, &[1]);
     notes(ctx, c, if version == 1 { "mmio_legacy" } else { "mmio_modern" }, &res);
     fst.borrow_mut().script.q.clear();
     if let Ok(Ok(b)) = r { drop_built(b); }
+    crate::mmio::clear();
+}
+
+/// the environment of one run on the real PciTransport
+#[derive(Clone, Debug)]
+pub struct PciCase { pub c: Case, pub geo: drivers::PciGeo, pub cfg_present: bool }
+impl PciCase {
+    /// the plain function: structures at 0 / 0x1000 / 0x2000 / 0x3000 of the BAR, multiplier 4, queue_notify_off(q) = q, the
+    /// device configuration padded to whole 32-bit words (PciTransport sees the window as a [u32] slice)
+    pub fn plain(c: Case) -> PciCase {
+        let mut c = c;
+        while c.cfg.len() % 4 != 0 { c.cfg.push(0); }
+        let present = c.cfg.len() >= 4;
+        PciCase { geo: drivers::PciGeo::plain(c.d.nqueues()), cfg_present: present, c }
+    }
+}
+
+/// drop of a PciTransport: device_status := 0, then reads of device_status until 0 (a release: property C09)
+fn strip_pci_release_tail(ev: &mut Vec<u128>) {
+    let mut it = drivers::items21(ev);
+    let st = |x: &Vec<u128>, w: u128| x.len() == 6 && x[0] == 21 && x[1] == 0 && x[2] == w && x[3] == 20;
+    let mut k = it.len();
+    while k > 0 && st(&it[k - 1], 0) { k -= 1; }
+    if k > 0 && st(&it[k - 1], 1) && it[k - 1][5] == 0 { it.truncate(k - 1); *ev = it.concat(); }
+}
+
+/// one constructor run on the real PciTransport over the emulated PCI function
+pub fn pci_case(ctx: &mut Ctx, pc: &PciCase) {
+    let c = &pc.c;
+    let p = drivers::norm_params(c.p);
+    drivers::reset_platform(0x4000_0000_0000);
+    let Some((t, fst)) = drivers::pci_transport(c.d, c.offered, c.default_max, c.cfg.clone(), pc.cfg_present, pc.geo.clone()) else { ctx.tr.comment("pci probe failed"); ctx.tr.note("pci_probe_failed"); return };
+    let _ = drivers::take_records();
+    { let mut s = fst.borrow_mut(); s.script.q = c.qs.clone(); s.script.gens = c.gens.iter().copied().collect(); }
+    hal::fail_alloc_at(c.fail_alloc);
+    let d = c.d;
+    let r = catch_unwind(AssertUnwindSafe(move || drivers::build(d, t, p)));
+    hal::fail_alloc_at(None);
+    let rec = drivers::take_records();
+    let res = enc_res(&r);
+    let cfg_len = if pc.cfg_present { c.cfg.len() } else { 0 };
+    let geo = pc.geo.clone();
+    let render = move |region: u32, write: bool, off: u64, width: u8, val: u64| -> Vec<u128> {
+        let (win, o) = if region == drivers::PCI_REGION { geo.classify(cfg_len, off, width) } else { (9, off as u128) };
+        vec![21, win, write as u128, o, width as u128, val as u128]
+    };
+    let mut ev = drivers::enc_events_with(&rec, &render);
+    if fst.borrow().runaway { ev.truncate(6 * 4096); }
+    // a constructor that fails drops the transport, which resets the device: that release belongs to C09
+    if res[0] != 0 { strip_pci_release_tail(&mut ev); }
+    let cfg_va = drivers::PCI_BAR_VBASE as u128 + pc.geo.cfg_off as u128;
+    let mut ins = vec![d.code(), ctx.release as u128, c.offered as u128, p.p1(d), p.p2(d), utf8_flag(d, &c.cfg) as u128,
+        (pc.geo.notify_len / 2) as u128, pc.geo.mult as u128, pc.cfg_present as u128, cfg_va, pc.geo.noffs.len() as u128];
+    ins.extend(pc.geo.noffs.iter().map(|x| *x as u128));
+    ins.extend(env_tail(c, &rec));
+    let mut outs = res.to_vec(); outs.extend(&ev);
+    ctx.tr.line(812, &ins, &outs);
+    // drop the driver (and with it the transport: device_status := 0, polled until it reads 0)
+    fst.borrow_mut().script.q.clear();
+    if let Ok(Ok(b)) = r { let _ = catch_unwind(AssertUnwindSafe(move || drop(b))); }
+    let rec_drop = drivers::take_records();
+    // the property on the window accesses observed during construction ...
+    let ok = (res[0] == 0) as u128;
+    let accs = |log: &[hal::Ev], m: &mut Vec<u128>| {
+        let mut polls = 0usize;
+        for e in log { if let hal::Ev::Mmio { region, write, off, width, val } = e {
+            let a = render(*region, *write, *off, *width, *val);
+            // a long run of status polls is passed on in its first 64 reads
+            if a[1] == 0 && a[2] == 0 && a[3] == 20 { polls += 1; if polls > 64 { continue; } } else { polls = 0; }
+            m.extend(a[1..].iter());
+        } }
+    };
+    let mut m = vec![d.code(), c.offered as u128, ok, pc.geo.mult as u128];
+    accs(&rec.log, &mut m);
+    ctx.tr.line(854, &m, &[1]);
+    // ... and over the whole life of the transport, its drop included (a reset is always legal; nothing is claimed of
+    // the final status). A wait on device_status that the device had to break (POLL_LIMIT polls in a row) is reported
+    // as one access with the window code 8, which no rule allows: the code under test would never have returned.
+    if !rec_drop.log.is_empty() || fst.borrow().runaway {
+        let mut m = vec![d.code(), c.offered as u128, 0, pc.geo.mult as u128];
+        accs(&rec.log, &mut m); accs(&rec_drop.log, &mut m);
+        if fst.borrow().runaway { m.extend([8, 0, 20, 1, drivers::POLL_LIMIT as u128]); ctx.tr.note("pci_runaway_status_poll"); }
+        ctx.tr.line(854, &m, &[1]);
+    }
+    let kept = without_mmio(&rec);
+    let mut m = vec![d.code(), c.offered as u128, p.p1(d), 0]; m.extend(drivers::enc_events(&kept));
+    ctx.tr.line(852, &m, &[1]);
+    notes(ctx, c, "pci", &res);
+    if pc.geo.init_status != 0 { ctx.tr.note("pci_stale_status"); }
+    if pc.geo.checking_status { ctx.tr.note("pci_checking_status"); }
+    if !pc.cfg_present { ctx.tr.note("pci_no_device_cfg"); }
+    ctx.tr.note(&format!("pci_mult_{}", pc.geo.mult));
     crate::mmio::clear();
 }
 
@@ -252,6 +356,32 @@ fn varied_case(ctx: &mut Ctx, d: Drv) -> Case {
     c
 }
 
+/// a PCI function that deviates from the plain one: where the structures lie, multiplier, queue_notify_off per queue,
+/// a notification window that is too short for some queue, no device configuration capability, a configuration
+/// capability that is not a whole number of words, stale device_status
+fn varied_pci_case(ctx: &mut Ctx, d: Drv) -> PciCase {
+    let mut c = varied_case(ctx, d);
+    c.legacy = false;
+    let nq = d.nqueues();
+    let pad = ctx.rng.chance(3, 4);
+    if pad { while c.cfg.len() % 4 != 0 { c.cfg.push(0); } }
+    let cfg_present = c.cfg.len() >= 4 && !ctx.rng.chance(1, 10);
+    let mult = *ctx.rng.pick(&[0u32, 2, 4, 4, 8, 0x100, 0x1000]);
+    let noffs: Vec<u16> = match ctx.rng.below(5) {
+        0 => (0..nq as u16).collect(),
+        1 => (0..nq as u16).rev().collect(),
+        2 => vec![0; nq],
+        3 => (0..nq).map(|_| ctx.rng.below(8) as u16).collect(),
+        _ => (0..ctx.rng.below(nq as u64 + 1)).map(|_| ctx.rng.below(4) as u16).collect(),
+    };
+    let top = noffs.iter().copied().max().unwrap_or(0) as u32 * mult;
+    // usually long enough for every queue; sometimes exactly, one element short, or odd
+    let notify_len = match ctx.rng.below(6) { 0 => top + 2, 1 => (top + 1).max(2), 2 => top.max(2), 3 => top + 3, _ => (top + 2).max(0x100) }.min(0x8000);
+    let (common_off, isr_off, cfg_off, notify_off) = *ctx.rng.pick(&[(0u32, 0x1000u32, 0x2000u32, 0x3000u32), (0x3000, 0x100, 0x2004, 0x8000), (0x40, 0x3f, 0x1004, 0x4000), (0x8000, 0x8038, 0x803c, 0), (0x1000, 0x2000, 0x0, 0x3000)]);
+    let init_status = if ctx.rng.chance(1, 4) { *ctx.rng.pick(&[0x0fu8, 0x0b, 0x03, 0x40, 0x80, 0x8f, 0xff]) } else { 0 };
+    PciCase { c, cfg_present, geo: drivers::PciGeo { common_off, isr_off, cfg_off, notify_off, notify_len, mult, noffs, init_status, checking_status: ctx.rng.chance(1, 2) } }
+}
+
 pub fn run(ctx: &mut Ctx) {
     for d in drivers::ALL {
         // ---- the model transport: every directed word ----
@@ -290,6 +420,20 @@ pub fn run(ctx: &mut Ctx) {
             let n = ctx.budget(30, 25);
             for _ in 0..n { let mut c = varied_case(ctx, d); c.legacy = false; mmio_case(ctx, ver, &c); }
         }
+        // ---- the real PCI transport ----
+        ctx.tr.scenario(&format!("c08-pci-{}", d.name()));
+        for w in &words { let c = Case::plain(ctx, d, *w); pci_case(ctx, &PciCase::plain(c)); }
+        // what a previous driver left in device_status; a device that checks the accepted features at FEATURES_OK
+        for st in [0x0fu8, 0x0b, 0x03, 0x01, 0x40, 0x80, 0xcf, 0xff] {
+            for w in [0u64, 1 << 32, u64::MAX] {
+                let c = Case::plain(ctx, d, w); let mut pc = PciCase::plain(c);
+                pc.geo.init_status = st; pc.geo.checking_status = st & 1 == 1;
+                pci_case(ctx, &pc);
+            }
+        }
+        ctx.tr.scenario(&format!("c08-pci-env-{}", d.name()));
+        let n = ctx.budget(40, 10);
+        for _ in 0..n { let pc = varied_pci_case(ctx, d); pci_case(ctx, &pc); }
         // ---- feature-gated operations ----
         let ops = ops_of(d);
         if !ops.is_empty() {
